@@ -109,4 +109,15 @@ CLAIMS['C10'] = dict(
           'on a leading decimal digit); user-defined format_type overloads and iostream internals are outside; assertions of the '
           'floating-point renderer are C13, of the converters C02/C03'),
     technique='static analysis: abstract interpretation over a symbolic NUL-terminated text with widening + Houdini-verified loop invariants; throw-set and assertion facts')
+CLAIMS['C08'] = dict(
+    level='proof',
+    text=('substr, left and right are interpreted with start, count and n free over their whole 64-bit type and a symbolic string size in '
+          'both storage classes; on every path the copied range lies inside the string, no allocation exceeds the source, and the '
+          '(offset,length) of the result is compared with the clamp formula of the property (mismatches come with concrete witnesses). '
+          'The trim walks are shown to stay inside [0,size] (widening with verified cursor bounds) and to call substr inside the string. '
+          'The 12 before_/after_ overloads are interpreted with the search result as a symbol: on a match the slice is left(i) / '
+          'substr(i + length of the separator searched for), without a match the whole / empty string as the property tabulates.'),
+    note=('relative to: clang-14 lowering, STIR, C05 (storage of size()+1 units terminated at size()), C07 for the meaning of the index '
+          'returned by find/find_last; which bytes a trim removes (membership in the set) is delegated to find_cs'),
+    technique='static analysis: abstract interpretation with free scalars at full range (linear terms + intervals), oracle clamp formula, witness search')
 NOT_APPLICABLE = {}
